@@ -39,7 +39,9 @@ func ulps(x float64, k int) float64 {
 
 func genC10(r *Rng, e *Emitter, n int) {
 	emit := func(a, b, c geom.Coord) {
-		e.emit("C10.orient", fmt.Sprintf("(%s %s %s)", sxCoord(a), sxCoord(b), sxCoord(c)), guard(func() string {
+		in := fmt.Sprintf("(%s %s %s)", sxCoord(a), sxCoord(b), sxCoord(c))
+		a, b, c = slot(0, a...), slot(1, b...), slot(2, c...) // the caller's buffers are reused for every call
+		e.emit("C10.orient", in, guard(func() string {
 			return fmt.Sprintf("(%d %d %d)", int(bigxy.VerifOrientationIndexFilter(a, b, c)), int(bigxy.OrientationIndex(a, b, c)), int(xy.OrientationIndex(a, b, c)))
 		}))
 	}
